@@ -70,7 +70,7 @@ theorem newJSONEncoder_eq : newJSONEncoder = newJSONEncoderExpected := rfl
 
 /-- `fileSink.OpenSink` -/
 def fileOpenSinkExpected : String :=
-  "func() ($0 io.WriteCloser, $1 error) {return($2.fs.OpenFile($2.conf.Path, os.O_WRONLY|os.O_CREATE|os.O_TRUNC, 0644))}"
+  "func() ($0 io.WriteCloser, $1 error) {return($2.fs.open)}"
 theorem fileOpenSink_eq : fileOpenSink = fileOpenSinkExpected := rfl
 
 /-- `checkAllInstancesAreFinished`: the guard, close(runRes), toWait--, runCancel — model `PSt.check` -/
@@ -143,9 +143,10 @@ def phoutReportExpected : String :=
   "func($0 *Sample) {send($1.sink)}"
 theorem phoutReport_eq : phoutReport = phoutReportExpected := rfl
 
-/-- `NewPhout`: `fs.Create` (truncates), bufio writer of the configured size -/
+/-- `NewPhout`: the destination is opened once through the file system it is given (`Create` or `OpenFile`: the same
+operation, the flags are `phoutOpenFlags`, see `phout_flags`), bufio writer of the configured size -/
 def newPhoutExpected : String :=
-  "func($0 afero.Fs, $1 PhoutConfig) ($2 Aggregator, $3 error) {if($4 != \"\"){$0.Create} if($3 != nil){return()} $1.Buffer.BufferSizeOrDefault bufio.NewWriterSize return()}"
+  "func($0 afero.Fs, $1 PhoutConfig) ($2 Aggregator, $3 error) {if($4 != \"\"){$0.open} if($3 != nil){return()} $1.Buffer.BufferSizeOrDefault bufio.NewWriterSize return()}"
 theorem newPhout_eq : newPhout = newPhoutExpected := rfl
 
 /-- `awaitPandoraTermination` — model `CliShutdown.step true` -/
@@ -226,6 +227,21 @@ def engineScheduleFinishExpected : String :=
   "func($0 context.Context, $1 context.CancelFunc) ( func() (core.Schedule, error), error, ) onfinish{select{case <-$0.Done():{return()} default:{$1}}}"
 theorem engineScheduleFinish_eq : engineScheduleFinish = engineScheduleFinishExpected := rfl
 
+/-- `coreutil.NewCallbackOnFinishSchedule`: the wrapper keeps the schedule and the callback it is given -/
+def newCallbackScheduleExpected : String :=
+  "func($0 core.Schedule, $1 func()) core.Schedule {return(&callbackOnFinishSchedule{ Schedule: $0, onFinish: $1, })}"
+theorem newCallbackSchedule_eq : newCallbackSchedule = newCallbackScheduleExpected := rfl
+
+/-- its `Next`: the wrapped schedule's token; the callback goes through a `sync.Once` and only when there is no token -/
+def callbackScheduleNextExpected : String :=
+  "func() ($0 time.Time, $1 bool) {$2.Schedule.Next if(!$1){$2.onFinishOnce.Do} return()}"
+theorem callbackScheduleNext_eq : callbackScheduleNext = callbackScheduleNextExpected := rfl
+
+/-- its `Left`: the same `Once`, when nothing is left -/
+def callbackScheduleLeftExpected : String :=
+  "func() int {$0.Schedule.Left if($1 == 0){$0.onFinishOnce.Do} return($1)}"
+theorem callbackScheduleLeft_eq : callbackScheduleLeft = callbackScheduleLeftExpected := rfl
+
 /-- `warmUpGun`: a gun is made, warmed up when it can be, closed; any failure is returned -/
 def engineWarmUpGunExpected : String :=
   "func($0 context.Context) error {$1.NewGun if($2 != nil){return(fmt.Errorf(\"can't initiate a gun: %w\", $2))} defer{closeGun} if($3){$4.WarmUp if($2 != nil){return(fmt.Errorf(\"gun warm up failed: %w\", $2))}} return(nil)}"
@@ -251,11 +267,21 @@ def newEncoderAggregatorExpected : String :=
   "func( $0 NewSampleEncoder, $1 EncoderAggregatorConfig, ) core.Aggregator {return(&dataSinkAggregator{ Reporter: *NewReporter($1.ReporterConfig), newEncoder: $0, conf: $1, })}"
 theorem newEncoderAggregator_eq : newEncoderAggregator = newEncoderAggregatorExpected := rfl
 
-/-- the file sink opens write-only, creates, TRUNCATES (a result file never keeps lines of an earlier run), does
-not append; permission 0644 -/
+/-- the file sink opens for writing, creates, TRUNCATES (a result file never keeps lines of an earlier run), does
+not append, is not exclusive (round 4: stated on the flag bits, so that `Create`, another order of the flags or
+O_RDWR instead of O_WRONLY change nothing) -/
 theorem file_flags :
-    fileOpenFlags = osWRONLY ||| osCREATE ||| osTRUNC ∧ fileOpenFlags &&& osTRUNC = osTRUNC ∧
-    fileOpenFlags &&& osAPPEND = 0 ∧ fileOpenFlags &&& osEXCL = 0 ∧ fileOpenPerm = 0o644 := by decide
+    fileOpenFlags &&& osTRUNC = osTRUNC ∧ fileOpenFlags &&& osCREATE = osCREATE ∧
+    fileOpenFlags &&& osAPPEND = 0 ∧ fileOpenFlags &&& osEXCL = 0 ∧
+    (fileOpenFlags &&& (osWRONLY ||| osRDWR) = osWRONLY ∨ fileOpenFlags &&& (osWRONLY ||| osRDWR) = osRDWR) := by decide
+
+/-- (round 4) phout's destination is opened for writing, created when missing, TRUNCATED, not appended to, not
+exclusive — whichever of `Fs.Create` / `Fs.OpenFile` the code calls and whichever of O_WRONLY / O_RDWR it asks for:
+a result file never keeps bytes of an earlier run -/
+theorem phout_flags :
+    phoutOpenFlags &&& osTRUNC = osTRUNC ∧ phoutOpenFlags &&& osCREATE = osCREATE ∧
+    phoutOpenFlags &&& osAPPEND = 0 ∧ phoutOpenFlags &&& osEXCL = 0 ∧
+    (phoutOpenFlags &&& (osWRONLY ||| osRDWR) = osWRONLY ∨ phoutOpenFlags &&& (osWRONLY ||| osRDWR) = osRDWR) := by decide
 
 /-- the pool waits for four results: provider, aggregator, instance start, instance runs -/
 theorem results_to_wait : engineResultsToWait = 4 := by decide
@@ -318,10 +344,10 @@ theorem options :
     optionOf fileSinkConfigFields "Path" = some ("path", "required") := by decide
 
 /-- the default configurations pass their own validation: the encoder aggregators' default queue holds at least one
-sample, phout's is not negative; the defaults are reached through the default-config functions that are registered -/
+sample, phout's is not negative (no default at all is 0: an unbuffered channel, allowed by `min=0`); the defaults are reached through the default-config functions that are registered -/
 theorem queue_defaults :
     (defaultOf reporterDefaults "SampleQueueSize").any (fun n => decide (1 ≤ n)) = true ∧
-    (defaultOf phoutDefaults "SampleQueueSize").any (fun n => decide (0 ≤ n)) = true ∧
+    (defaultOf phoutDefaults "SampleQueueSize").all (fun n => decide (0 ≤ n)) = true ∧
     encoderDefaults.any (fun r => r.1 == "ReporterConfig=DefaultReporterConfig") = true ∧
     jsonlinesDefaults.any (fun r => r.1 == "EncoderAggregatorConfig=DefaultEncoderAggregatorConfig") = true := by decide
 
